@@ -333,3 +333,61 @@ func VerifC20Load() {
 	}
 	sym.NoPanic(func() { _ = p.Close() })
 }
+
+// ---- hook for harnesses of other packages (C26)
+
+// VerifSec / VerifProg describe a section / segment of a file to prepare.
+type VerifSec struct {
+	Type  uint32
+	Flags uint64
+	Addr  uint64
+	Data  []byte
+}
+
+type VerifProg struct {
+	Type  uint32
+	Vaddr uint64
+	Data  []byte
+	Memsz uint64
+}
+
+// VerifPrepareELF makes the described file available to NewParser under the
+// returned path: under the engine as the parsed representation behind the
+// debug/elf stub, natively as a real ELF file (cleanup removes it). With
+// openFails the path cannot be opened.
+func VerifPrepareELF(typ uint16, entry uint64, secs []VerifSec, progs []VerifProg, openFails bool) (path string, cleanup func()) {
+	spec := vSpec{typ: typ, entry: entry}
+	for _, c := range secs {
+		spec.secs = append(spec.secs, vSec{typ: c.Type, flags: c.Flags, addr: c.Addr, data: c.Data, size: uint64(len(c.Data))})
+	}
+	for _, p := range progs {
+		spec.progs = append(spec.progs, vProg{typ: p.Type, vaddr: p.Vaddr, data: p.Data, memsz: p.Memsz})
+	}
+	if !sym.Native() {
+		f := &delf.File{}
+		f.Type = delf.Type(spec.typ)
+		f.Entry = spec.entry
+		for i := range spec.secs {
+			c := spec.secs[i]
+			sec := &delf.Section{SectionHeader: delf.SectionHeader{Name: fmt.Sprintf(".s%d", i), Type: delf.SectionType(c.typ), Flags: delf.SectionFlag(c.flags), Addr: c.addr, Size: c.size}}
+			sym.AttachData(sec, c.data, false)
+			f.Sections = append(f.Sections, sec)
+		}
+		for i := range spec.progs {
+			p := spec.progs[i]
+			pr := &delf.Prog{ProgHeader: delf.ProgHeader{Type: delf.ProgType(p.typ), Vaddr: p.vaddr, Filesz: uint64(len(p.data)), Memsz: p.memsz}}
+			sym.AttachData(pr, p.data, false)
+			f.Progs = append(f.Progs, pr)
+		}
+		sym.SetELF(f, openFails)
+		return "stubbed.elf", func() {}
+	}
+	if openFails {
+		return "/nonexistent/verif.elf", func() {}
+	}
+	p, err := vWriteELF(spec)
+	if err != nil {
+		panic(err)
+	}
+	return p, func() { os.Remove(p) }
+}
